@@ -54,13 +54,25 @@ fn sched_legs_inner(thorough: bool) -> Vec<SchedLeg> {
         SchedLeg { name: "cli-clone/fixed4/seed/b2".into(), spec: clone_spec(&f4, &Comp::None, 64, 2, &src_dup, Some(b"XXXXBBBBYYYYCCCC"), None, false, false), bound: b, reduce: true, cap: 0 },
         SchedLeg { name: "cli-clone/fixed4/in-place/b2".into(), spec: clone_spec(&f4, &Comp::None, 64, 2, &src_dup, None, Some(b"BBBBAAAAXXXXCCCCZZZZ"), true, false), bound: b, reduce: true, cap: 0 },
     ];
+    // complete trees (bound 1000 = unbounded; the cap is far above the measured tree sizes and a
+    // capped leg is reported as such, never as exhaustive)
+    let full = |name: &str, spec: Value, reduce: bool| SchedLeg { name: name.into(), spec, bound: 1000, reduce, cap: 3_000_000 };
+    v.push(full("cli-compress/fixed4/3chunks/b1/complete-tree", compress_spec("cli-compress", &f4, &Comp::None, 64, 1, &src3), true));
     if thorough {
-        v.push(SchedLeg { name: "cli-compress/fixed4/2chunks/complete-tree".into(), spec: compress_spec("cli-compress", &f4, &Comp::None, 64, 2, &src2), bound: 1000, reduce: true, cap: 400_000 });
-        v.push(SchedLeg { name: "cli-compress/fixed4/2chunks/complete-tree-noR1".into(), spec: compress_spec("cli-compress", &f4, &Comp::None, 64, 2, &src2), bound: 1000, reduce: false, cap: 400_000 });
+        v.push(full("cli-compress/fixed4/2chunks/b2/complete-tree", compress_spec("cli-compress", &f4, &Comp::None, 64, 2, &src2), true));
+        v.push(full("cli-compress/fixed4/2chunks/b2/complete-tree-noR1", compress_spec("cli-compress", &f4, &Comp::None, 64, 2, &src2), false));
+        v.push(full("cli-compress/fixed4/3chunks/b2/complete-tree", compress_spec("cli-compress", &f4, &Comp::None, 64, 2, &src3), true));
+        v.push(full("cli-compress/fixed4/dup4/b1/complete-tree", compress_spec("cli-compress", &f4, &Comp::None, 64, 1, &src_dup), true));
+        v.push(full("cli-compress/fixed16/brotli/b1/complete-tree", compress_spec("cli-compress", &f16, &Comp::Brotli(6), 8, 1, &src16), true));
+        // (the library writer's 3-chunk tree at buffers 2 exceeds 7e5 schedules: buffers 1, and 2 chunks at buffers 2)
+        v.push(full("lib-compress/fixed4/3chunks/b1/complete-tree", compress_spec("lib-compress", &f4, &Comp::None, 64, 1, &src3), true));
+        v.push(full("lib-compress/fixed4/2chunks/b2/complete-tree", compress_spec("lib-compress", &f4, &Comp::None, 64, 2, &src2), true));
+        v.push(full("cli-clone/fixed4/plain/b2/complete-tree", clone_spec(&f4, &Comp::None, 64, 2, &src3, None, None, false, true), true));
+        v.push(full("cli-clone/fixed4/seed/b1/complete-tree", clone_spec(&f4, &Comp::None, 64, 1, &src_dup, Some(b"XXXXBBBBYYYYCCCC"), None, false, false), true));
+        v.push(full("cli-clone/fixed4/in-place/b1/complete-tree", clone_spec(&f4, &Comp::None, 64, 1, &src_dup, None, Some(b"BBBBAAAAXXXXCCCCZZZZ"), true, false), true));
         v.push(SchedLeg { name: "lib-compress/fixed16/zstd/b2".into(), spec: compress_spec("lib-compress", &f16, &Comp::Zstd(3), 64, 2, &src16), bound: 3, reduce: true, cap: 0 });
         v.push(SchedLeg { name: "cli-compress/fixed4/dup/b8".into(), spec: compress_spec("cli-compress", &f4, &Comp::None, 64, 8, &src_dup), bound: 3, reduce: true, cap: 0 });
         v.push(SchedLeg { name: "cli-clone/fixed16/brotli/in-place+seed".into(), spec: clone_spec(&f16, &Comp::Brotli(6), 64, 3, &src16, Some(&[vec![b'y'; 16], vec![b'q'; 16]].concat()), Some(&[vec![b'z'; 16], vec![b'x'; 16]].concat()), true, true), bound: 3, reduce: true, cap: 0 });
-        v.push(SchedLeg { name: "cli-compress/fixed4/dup/b2/bound4".into(), spec: compress_spec("cli-compress", &f4, &Comp::None, 64, 2, &src3), bound: 4, reduce: true, cap: 600_000 });
     } else {
         // R1 validation on the smallest input (both runs complete their bound)
         v.push(SchedLeg { name: "cli-compress/fixed4/2chunks/b2".into(), spec: compress_spec("cli-compress", &f4, &Comp::None, 64, 2, &src2), bound: 2, reduce: true, cap: 0 });
